@@ -376,11 +376,19 @@ def R5_collect_protocol_fees(run):
                     "constrained to the pool's mints, then resets both; the reset stores 0 to exactly the two owed fields")
     facts = run.facts
     structs = ACC.load(facts)
-    fn = facts.need_fn(W + "::reset_protocol_fees_owed")
-    pv = prov_of(fn)
-    ws = [w for w in writes.field_stores(facts) if w["fn"] is fn]
-    ok = {w["field"] for w in ws} == {"protocol_fee_owed_a", "protocol_fee_owed_b"} and all(const_val(pv._rvalue(w["rv"], w["block"], w["stmt"], 0)) == 0 for w in ws)
-    run.check("R5", "reset-fn", ok, "reset_protocol_fees_owed does not zero exactly protocol_fee_owed_a and _b", loc=fn.loc(), detail="owed_a := 0; owed_b := 0")
+    fn = facts.fn(W + "::reset_protocol_fees_owed")
+    from analysis import canon as _canon
+    if fn is None and (W + "::reset_protocol_fees_owed") in ((_canon.reference(facts.crate) or {}).get("fns", {})):
+        # the reset written into its callers and removed: the in-place form (the two zero stores, recognised from the recorded setter
+        # signature) is decided per handler below, and `reset-only-on-collection` reads the stores of 0 directly
+        fn = facts.need_fn("instructions::collect_protocol_fees::handler")
+        run.ok("R5", "reset-fn", detail="reset written in place in the collection handlers")
+    else:
+        fn = facts.need_fn(W + "::reset_protocol_fees_owed")
+        pv = prov_of(fn)
+        ws = [w for w in writes.field_stores(facts) if w["fn"] is fn]
+        ok = {w["field"] for w in ws} == {"protocol_fee_owed_a", "protocol_fee_owed_b"} and all(const_val(pv._rvalue(w["rv"], w["block"], w["stmt"], 0)) == 0 for w in ws)
+        run.check("R5", "reset-fn", ok, "reset_protocol_fees_owed does not zero exactly protocol_fee_owed_a and _b", loc=fn.loc(), detail="owed_a := 0; owed_b := 0")
     # ... and only a collection may zero them: the stores of 0 to protocol_fee_owed_a / _b are those of reset_protocol_fees_owed, and that is
     # called from the two collection handlers only (a reset anywhere else erases a claim that was never paid)
     allowed = {"instructions::collect_protocol_fees::handler", "instructions::v2::collect_protocol_fees::handler"}
